@@ -29,6 +29,8 @@ const (
 	aRKind         // reflect.Kind of a known type
 	aGlobal        // a package-level variable's value (maps with known literal contents)
 	aConcrete      // some non-nil value of a concrete type (result of a successful type assertion)
+	aFunc          // a known function value (entry of a package-level dispatch table)
+	aSlot          // address of element Idx of the package-level table G
 )
 
 type aval struct {
@@ -36,6 +38,8 @@ type aval struct {
 	Tag types.Type
 	C   constant.Value
 	G   *ssa.Global
+	Fn  *ssa.Function
+	Idx int64
 }
 
 func (a aval) String() string {
@@ -54,6 +58,10 @@ func (a aval) String() string {
 		return "reflect.Type(" + typeString(a.Tag) + ")"
 	case aRKind:
 		return "reflect.Kind(" + typeString(a.Tag) + ")"
+	case aFunc:
+		return "func " + a.Fn.Name()
+	case aConcrete:
+		return "non-nil value"
 	}
 	return "?"
 }
@@ -78,10 +86,45 @@ type tagEval struct {
 	callHookEnv func(call *ssa.Call, val func(ssa.Value) aval) ([]aval, bool)
 	maxVisits   int // loop unrolling bound per path (default 2)
 	globals map[*ssa.Global]map[string]constant.Value // string-keyed constant maps built in init
+	tables  map[*ssa.Global]map[int64]*ssa.Function   // package-level arrays/maps of functions, by constant index
 }
 
 func (c *Ctx) newTagEval() *tagEval {
-	te := &tagEval{c: c, globals: map[*ssa.Global]map[string]constant.Value{}}
+	te := &tagEval{c: c, globals: map[*ssa.Global]map[string]constant.Value{}, tables: map[*ssa.Global]map[int64]*ssa.Function{}}
+	for _, sp := range c.LibPkgs {
+		init := sp.Func("init")
+		if init == nil {
+			continue
+		}
+		for _, b := range init.Blocks {
+			for _, in := range b.Instrs {
+				st, ok := in.(*ssa.Store)
+				if !ok {
+					continue
+				}
+				ia, ok := st.Addr.(*ssa.IndexAddr)
+				if !ok {
+					continue
+				}
+				g, ok := ia.X.(*ssa.Global)
+				if !ok {
+					continue
+				}
+				k, ok := constInt(ia.Index)
+				if !ok {
+					continue
+				}
+				for _, og := range origins(st.Val) {
+					if f := closureFn(og); f != nil {
+						if te.tables[g] == nil {
+							te.tables[g] = map[int64]*ssa.Function{}
+						}
+						te.tables[g][k] = c.declared(f)
+					}
+				}
+			}
+		}
+	}
 	// collect `global = map literal` initialisations from package init functions
 	for _, sp := range c.LibPkgs {
 		init := sp.Func("init")
@@ -373,9 +416,25 @@ func (te *tagEval) run(fr *frame, b *ssa.BasicBlock, pred *ssa.BasicBlock, depth
 					if xv.K == aGlobal {
 						fr.env[x] = xv // the value stored in the global
 					}
+					if xv.K == aSlot {
+						if f := te.tables[xv.G][xv.Idx]; f != nil {
+							fr.env[x] = aval{K: aFunc, Fn: f}
+						} else {
+							fr.env[x] = aval{K: aConst, C: nil} // empty slot: nil function
+						}
+					}
 				case token.SUB:
 					if xv.K == aConst && xv.C != nil && xv.C.Kind() == constant.Int {
 						fr.env[x] = aval{K: aConst, C: constant.UnaryOp(token.SUB, xv.C, 0)}
+					}
+				}
+			case *ssa.IndexAddr:
+				if g, ok := x.X.(*ssa.Global); ok {
+					if iv := te.val(fr, x.Index); iv.K == aConst && iv.C != nil && iv.C.Kind() == constant.Int {
+						if _, isTable := te.tables[g]; isTable && !te.globalWrittenElsewhere(g) {
+							k, _ := constant.Int64Val(iv.C)
+							fr.env[x] = aval{K: aSlot, G: g, Idx: k}
+						}
 					}
 				}
 			case *ssa.Lookup:
@@ -466,6 +525,11 @@ func (te *tagEval) binop(op token.Token, a, b aval) (aval, bool) {
 		}
 		return aval{}, false
 	}
+	if op == token.EQL || op == token.NEQ {
+		if (a.K == aFunc && b.K == aConst && b.C == nil) || (b.K == aFunc && a.K == aConst && a.C == nil) {
+			return aval{K: aConst, C: constant.MakeBool(op == token.NEQ)}, true
+		}
+	}
 	// a known non-nil concrete value compared with the nil constant
 	if op == token.EQL || op == token.NEQ {
 		if (a.K == aConcrete && b.K == aConst && b.C == nil) || (b.K == aConcrete && a.K == aConst && a.C == nil) {
@@ -535,6 +599,12 @@ func (te *tagEval) call(fr *frame, call *ssa.Call, depth int, outs *[]outcome) {
 		return
 	}
 	g := staticCallee(call)
+	if g == nil && !cc.IsInvoke() {
+		// a function value taken from a dispatch table
+		if fv := te.val(fr, cc.Value); fv.K == aFunc {
+			g = fv.Fn
+		}
+	}
 	if g == nil {
 		return
 	}
